@@ -100,12 +100,15 @@ CommitAll ==
             /\ Rec("CommitAll", [dev |-> r.dev, ideal |-> IF r.dev = "" THEN <<>> ELSE RootProj(r.ideal)], "ok")
 \* CALL dolt_reset(): the staged root goes back to HEAD
 ResetStaged == /\ On("ResetStaged") /\ staged # head /\ staged' = head /\ UNCHANGED <<head, working>> /\ Rec("ResetStaged", <<>>, "ok")
-\* CALL dolt_clean() / dolt_clean('-x')
+\* CALL dolt_clean() / dolt_clean('-x'): without -x the verdict of EVERY working table is computed first
+\* (doltdb.ExcludeIgnoredTables returns the conflict error of IsTableNameIgnored): contradicting patterns fail the call
 Clean(x) ==
-    LET gone == {n \in Present(working) : staged.t[n] = 0 /\ (x \/ Verdict(n) # "Ignore")} IN
+    LET gone == {n \in Present(working) : staged.t[n] = 0 /\ (x \/ Verdict(n) # "Ignore")}
+        conflict == ~x /\ \E n \in Present(working) : Verdict(n) = "Conflict" IN
     /\ On("Clean")
-    /\ working' = [working EXCEPT !.t = [n \in TNames |-> IF n \in gone THEN 0 ELSE working.t[n]]]
-    /\ UNCHANGED <<head, staged>> /\ Rec("Clean", [x |-> x, n |-> Cardinality(gone)], "ok")
+    /\ IF conflict THEN UNCHANGED <<head, staged, working>> /\ Rec("Clean", [x |-> x, n |-> 0], "conflict")
+       ELSE /\ working' = [working EXCEPT !.t = [n \in TNames |-> IF n \in gone THEN 0 ELSE working.t[n]]]
+            /\ UNCHANGED <<head, staged>> /\ Rec("Clean", [x |-> x, n |-> Cardinality(gone)], "ok")
 
 Next == \/ \E n \in Pick(TNames) : Create(n) \/ DropT(n) \/ Modify(n) \/ (\E m \in Pick(TNames) : Rename(n, m))
         \/ \E p \in Pick(PatPalette), b \in Pick(BOOLEAN) : PutPat(p, b)
@@ -131,7 +134,7 @@ ConflictIsReported ==
           ((\E n \in Union : Verdict(n) = "Conflict") <=> last'.res = "conflict") /\ (last'.res = "conflict" => UNCHANGED view)]_vars
 \* clean removes exactly the untracked non-ignored tables (all untracked ones with -x) and nothing that is tracked
 CleanExact ==
-    [][last'.a = "Clean" =>
+    [][(last'.a = "Clean" /\ last'.res = "ok") =>
           /\ \A n \in TNames : staged.t[n] # 0 => working'.t[n] = working.t[n]
           /\ \A n \in TNames : (staged.t[n] = 0 /\ working.t[n] # 0) =>
                 (working'.t[n] = 0 <=> (last'.args.x \/ Verdict(n) # "Ignore"))
